@@ -27,10 +27,13 @@ type Attempt struct {
 	Decoded []byte      // Body after undoing Content-Encoding gzip / deflate (zlib or raw); Body itself when identity
 	// DecodeErr is set when Content-Encoding names a compression and Body does not decode (Decoded is then nil).
 	DecodeErr error
-	// ContentLength is what the request declared. Short reports len(Body) != ContentLength for a declared length,
-	// which is what happens when an *http.Request whose body was already consumed is sent a second time.
+	// ContentLength is what the request declared. Short reports that the body as handed to the transport was shorter
+	// than that, which is what happens when an *http.Request whose body was already consumed is sent a second time
+	// (otlp re-sends one request object on every retry). Rewound reports that Body was then obtained from
+	// Request.GetBody, as net/http does on a reused connection; see DrainedPolicy.
 	ContentLength int64
 	Short         bool
+	Rewound       bool
 	At            time.Time // time.Now() on arrival (the bubble's clock inside synctest)
 }
 
@@ -146,6 +149,28 @@ func (o Outcome) wait(ctx context.Context) error {
 	return ctx.Err() // a context that is already done loses, as with net/http
 }
 
+// DrainedPolicy selects which of net/http's two behaviours HTTPScript imitates for a request that declares a
+// Content-Length but whose Body yields fewer bytes, because an earlier attempt consumed it.
+//
+// The real http.Transport fails to write such a request: "http: ContentLength=N with Body length M", before a single
+// byte reaches the server. What happens next depends on the connection it had picked. On a reused keep-alive
+// connection (the usual case when the previous attempt got an HTTP answer) the transport treats the failure as "nothing
+// written", calls Request.GetBody and transparently retries on another connection: the server receives the full body.
+// On a fresh connection (after a connection level failure, or with keep-alives off) there is no such retry and the
+// error is returned to the caller; the server sees nothing. Both were confirmed against net/http of go1.26.
+type DrainedPolicy int
+
+const (
+	// DrainedRewind: reused-connection behaviour. The body is taken from GetBody, the Attempt is recorded with the
+	// full body, Short and Rewound set, and Respond is consulted. Without GetBody: as DrainedFail.
+	DrainedRewind DrainedPolicy = iota
+	// DrainedFail: fresh-connection behaviour. The Attempt is recorded with what was read and Short set, Respond is
+	// not consulted, RoundTrip returns the ContentLength error.
+	DrainedFail
+	// DrainedPass: no imitation. The Attempt is recorded with what was read and Short set, Respond decides.
+	DrainedPass
+)
+
 // HTTPScript is an in-memory http.RoundTripper that records every request and answers as scripted.
 // The zero value answers 200 to everything. It creates no goroutines and no channels of its own.
 type HTTPScript struct {
@@ -156,11 +181,9 @@ type HTTPScript struct {
 	Respond func(a Attempt) Outcome
 	// DefaultStatus is used for Outcome.Status == 0. 0 = 200.
 	DefaultStatus int
-	// Lenient turns off the emulation of net/http's body length check. By default a request whose body is shorter
-	// than its declared Content-Length fails with the error the real transport gives
-	// ("http: ContentLength=N with Body length M"), after being recorded with Short = true and without consulting
-	// Respond: the real server would not get a complete request either.
-	Lenient bool
+	// Drained says what happens to a request whose body was consumed by an earlier attempt (Attempt.Short); see
+	// DrainedPolicy. The default is DrainedRewind.
+	Drained DrainedPolicy
 	// Timeout, when positive, is a per request time limit enforced by RoundTrip itself: an Outcome that has not
 	// answered by then ends with ErrClientTimeout. Variant.New sets it from Env.ClientTimeout; see there for why the
 	// limit lives here and not in http.Client.Timeout.
@@ -190,7 +213,16 @@ func (s *HTTPScript) RoundTrip(req *http.Request) (*http.Response, error) {
 		ContentLength: req.ContentLength,
 		At:            time.Now(),
 	}
-	a.Short = req.ContentLength > 0 && int64(len(body)) != req.ContentLength
+	a.Short = req.ContentLength > 0 && int64(len(body)) < req.ContentLength
+	if a.Short && s.Drained == DrainedRewind && req.GetBody != nil {
+		if rc, err := req.GetBody(); err == nil {
+			if b, err := io.ReadAll(rc); err == nil && int64(len(b)) == req.ContentLength {
+				a.Body, a.Rewound = b, true
+			}
+			_ = rc.Close()
+		}
+	}
+	body = a.Body
 	a.Decoded, a.DecodeErr = Decode(req.Header.Get("Content-Encoding"), body)
 
 	s.mu.Lock()
@@ -206,7 +238,7 @@ func (s *HTTPScript) RoundTrip(req *http.Request) (*http.Response, error) {
 		s.mu.Unlock()
 	}()
 
-	if a.Short && !s.Lenient {
+	if a.Short && !a.Rewound && s.Drained != DrainedPass {
 		return nil, fmt.Errorf("http: ContentLength=%d with Body length %d", req.ContentLength, len(body))
 	}
 
